@@ -581,6 +581,9 @@ def mut_target(a):
         elif t[0] == "field":
             fields.append(t[2])
             t = t[1]
+        elif t[0] == "downcast":
+            fields.append("<%s>" % t[2])
+            t = t[1]
         else:
             break
     if not mutable:
@@ -707,6 +710,10 @@ def canon_atom(a):
             return ("contains-any", tuple(const_chars_t(args[1])), _value(args[0]), pos)
         if p == SLICE_CONTAINS and const_strs(args[0]) is not None:
             return ("inlist", tuple(const_strs(args[0])), _value(args[1]), pos)
+        if p in ("std::iter::Iterator::all", "std::iter::Iterator::any") and len(args) == 2 and args[1][0] == "closure":
+            it = args[0][2] if args[0][0] == "var" else args[0]
+            if it[0] == "call" and it[1] == STR + "chars":
+                return (p.split("::")[-1], _value(it[2][0]), args[1][1], pos)
         return ("pred", p, tuple(_value(y) for y in args), pos)
     if k == "cmp":
         return ("cmp", a[1], _value(a[2]), _value(a[3]), a[4])
@@ -819,3 +826,44 @@ def rejections(facts, key):
             row.update(kind="other", term=v)
             rows.append(row)
     return rows
+
+
+# ====================================================================== BM -- builder model
+def builder_model(facts):
+    key = build_fn(facts)
+    body = facts.body(key)
+    bm = {"key": key, "body": body}
+    eff = mut_effects(body)
+    for e in eff:
+        e["gatoms"] = [(gb, canon_atom(a)) for gb, a in atoms_at(body, e["bb"])]
+        e["catoms"] = [c for _, c in e["gatoms"]]
+    bm["effects"] = eff
+    bm["rejections"] = rejections(facts, key)
+    bm["calls"] = []
+    for bb, t in body.calls():
+        path = callee_name(t["callee"])
+        bm["calls"].append({"bb": bb, "path": path, "raw_path": t["callee"].get("path"), "args": [norm(body.resolve_operand(a)) for a in t["args"]], "site": body.site(bb), "callee": t["callee"]})
+    # stages
+    st = {}
+    fin = [c for c in bm["calls"] if c["raw_path"] == "PurlShape::finish"]
+    st["S1"] = fin
+    name_err = [r for r in bm["rejections"] if r["kind"] == "err" and any(t[0] == "empty" for t in r.get("triggers", []))]
+    st["S2"] = name_err
+    st["S3"] = [e for e in eff if e["path"].endswith("::retain") or e["path"].endswith("::retain_mut")]
+    st["S4get"] = [c for c in bm["calls"] if c["path"].endswith("::try_get_typed") or c["path"].endswith("::get_typed")]
+    st["S4ser"] = [c for c in bm["calls"] if facts.fns.get(c["path"], {}).get("impl_trait_def") == "std::convert::TryFrom" and "Checksum<" in facts.fns.get(c["path"], {}).get("impl_trait", "")]
+    st["S4ins"] = [e for e in eff if e["path"] == "qualifiers::Qualifiers::insert"]
+    st["S5"] = [r for r in bm["rejections"] if r["kind"] == "ok"]
+    bm["stages"] = st
+    return bm
+
+
+def aggregates_of(facts, adt_path):
+    """All MIR aggregate constructions of the ADT: [(body key, bb, line)]"""
+    out = []
+    for k, b in facts.bodies.items():
+        for bi, bl in enumerate(b.blocks):
+            for st in bl["stmts"]:
+                if st["s"] == "assign" and st["rv"]["r"] == "aggregate" and st["rv"].get("ak") == "adt" and st["rv"]["path"] == adt_path:
+                    out.append((k, bi, st.get("line")))
+    return out
